@@ -259,6 +259,16 @@ Example C07_wire_body_wins :
   serve_wire c (1100 * ns)%Z EpSignOut (w [(k_redirect_uri, evil)] signed) = ORedirect good Verbatim.
 Proof. split; vm_compute; reflexivity. Qed.
 
+(* the answer depends on the clock only through the one-sided freshness test: if the service read
+   its clock anywhere in [lo, hi] during the request, it answered as the model does for one of the
+   two ends (case CServeT of the correspondence: sequences that re-present a link on the same
+   instance after its five minutes have passed, with small real-time margins) *)
+Theorem C07_clock_bracket : forall c lo mid hi ep w,
+  (lo <= mid)%Z -> (mid <= hi)%Z ->
+  serve_wire c mid ep w = serve_wire c lo ep w \/ serve_wire c mid ep w = serve_wire c hi ep w.
+Proof. intros c lo mid hi ep w. exact (serve_clock_bracket c lo mid hi ep (request_of_wire ep w)). Qed.
+Print Assumptions C07_clock_bracket.
+
 (* ---- 6. the monitor on wire requests accepts the model's predictions ----------------------- *)
 Theorem C07_monitor_serve_ok : forall c now ep w,
   (forall src hw, ep = EpSignOut -> serve_wire c now ep w = ORedirect src hw -> forallb (fun b => b <? 128) src = true ->
